@@ -235,6 +235,7 @@ def global_rules_body(body):
     b = rule_sub("R6.map-ctor", r"\bFxHash(Map|Set)::with_capacity_and_hasher\([^;]*?Default::default\(\)\)", lambda m: "V" + m.group(1) + "::new()", b)
     b = rule_sub("R2.map-type", r"\bFxHash(Map|Set)<", lambda m: "V" + m.group(1) + "<", b)
     b = rule_sub("R6.vec-capacity", r"\bVec::with_capacity\([^;]*?\)(?=[,;\s])", "Vec::new()", b)
+    b = rule_sub("R16.chrono-type-name", r"\bDateTime<Utc>", "DateTimeUtc", b)
     return b
 
 
@@ -302,6 +303,7 @@ def global_rules_sig(sig):
     s = re.sub(r"(?m)^\s*#\[[^\]]*\]\s*$", "", s)          # R0 attributes
     s = rule_sub("R0.visibility-dropped", r"\bpub(\([a-z ]+\))?\s+", "", s)
     s = rule_sub("R2.map-type", r"\bFxHash(Map|Set)<", lambda m: "V" + m.group(1) + "<", s)
+    s = rule_sub("R16.chrono-type-name", r"\bDateTime<Utc>", "DateTimeUtc", s)
     return " ".join(s.split())
 
 
@@ -330,6 +332,7 @@ def global_rules_struct(item):
     t = re.sub(r"(?m)^\s*#\[[^\]]*\]\s*\n", "", t)          # inner attrs like #[default]
     t = rule_sub("R0.visibility-dropped", r"\bpub(\([a-z ]+\))?\s+", "", t)
     t = rule_sub("R2.map-type", r"\bFxHash(Map|Set)<", lambda m: "V" + m.group(1) + "<", t)
+    t = rule_sub("R16.chrono-type-name", r"\bDateTime<Utc>", "DateTimeUtc", t)
     derives = []
     for a in item["attrs"]:
         m = re.match(r"#\[derive\((.*)\)\]", a)
